@@ -1,5 +1,6 @@
-//! pvc-uint: checks C15, C20.  usage: pvc-uint <Cxx> --tier quick|thorough [--replay f] [--only family]
+//! pvc-uint: checks C15, C20 and the poulpy-bin-fhe part of the cross-cutting property C12.  usage: pvc-uint <Cxx> --tier quick|thorough [--replay f] [--only family]
 
+pub mod c12uint;
 pub mod c15;
 pub mod c15b;
 pub mod c15p;
@@ -20,7 +21,23 @@ fn main() {
             run.finish()
         }};
     }
+    // part of a multi-group property: a replay descriptor of another group's family is not ours (exit code 2)
+    macro_rules! part {
+        ($level:expr, $run:path, $replay:path) => {{
+            let mut run = Run::new(&args, $level);
+            match &args.replay {
+                Some(p) => {
+                    if !$replay(&mut run, &load_replay(p)) {
+                        std::process::exit(2);
+                    }
+                }
+                None => $run(&mut run),
+            }
+            run.finish()
+        }};
+    }
     let code = match args.property.as_str() {
+        "C12" => part!("exploration", c12uint::run, c12uint::replay),
         "C15" => check!("model_checking", c15::run, c15::replay),
         "C20" => check!("model_checking", c20::run, c20::replay),
         o => {
